@@ -18,6 +18,7 @@ CLANG = 'clang++-14'
 CLANG_FLAGS = ['-std=c++17', '-O1', '-fno-vectorize', '-fno-slp-vectorize', '-fno-unroll-loops', '-S', '-emit-llvm',
                '-I', REPO, '-I', os.path.join(ROOT, 'harness'), '-Wno-everything']
 NCPU = os.cpu_count() or 4
+STRICT_REAL = True    # a VIOLATION is printed only if the counter-example also fails on the real compiled code (when that replay is available)
 
 
 MEM_UNWIND = ','.join(f'vp_mem{f}.{k}:{n}' for f, n in (('move_b', 34), ('move_w', 10), ('move_q', 10), ('move_p', 10), ('set_b', 34)) for k in (0, 1) if not (f == 'set_b' and k == 1))
@@ -494,8 +495,16 @@ def main():
                     rep_note = why_
                     if not Q.q.get('opts', {}).get('hb'):
                         ok2_, why2_ = real_replay(Q, compile_ll(R.work, Q.cpp, Q.defines, Q.cflags), e['cfile'], sc_['draws'], R.work)
+                        if ok2_ is False and 'left the recorded schedule' in str(why2_):
+                            ok2_ = None; why2_ = 'inconclusive (' + str(why2_) + ')'      # the replay machinery lost the schedule: no statement about the code
                         rec['real_code_replay'] = dict(reproduced=ok2_, detail=why2_)
                         rep_note += f" | real code (instrumented IR of the real headers, clang -O0 + ASan, same schedule): {'REPRODUCED' if ok2_ else ('not reproduced' if ok2_ is False else 'unavailable')}: {why2_}"
+                        if ok2_ is False and STRICT_REAL:
+                            # the real compiled code followed the whole schedule and did not fail: the encoding (or a model) is wrong, not the code
+                            broken += 1
+                            rec['verdict'] = 'broken'; rec['detail'] = 'ENCODING-DIVERGENCE: counter-example reproduces on the generated C but not on the real compiled code: ' + str(why2_)
+                            print(f"BROKEN query={Q.name}: {rec['detail']} (cbmc said: {(f0_['description'] or '')[:80]})", file=sys.stderr)
+                            evq.append(rec); continue
                 if r.get('unreachable'):
                     r['parsed']['failed'] = [dict(property='cover', description=f'required state (coverage mask {Q.must_cover}) is unreachable for every schedule inside the bound', trace=None)]
                 f0 = r['parsed']['failed'][0]
